@@ -361,9 +361,41 @@ func (g *gen) c11OddFormat() Op {
 	return Op{K: "fmtsweep", F: Str(sb.String()), A: args, S: lits}
 }
 
+// c11Helpers: EscapeBytes, EscapeMarkers, Join, JoinTo, SortStrings,
+// StringWithoutMarkers, ToBytes/ToString on 0..4 pieces; N=1: the pieces
+// need no escaping, so content must be conserved exactly.
+func (g *gen) c11Helpers() Op {
+	op := Op{K: "helpers"}
+	clean := g.chance(0.6)
+	if clean {
+		op.N = 1
+	}
+	win := rune(0x80 + g.r.Intn(0x3000))
+	for i, n := 0, g.r.Intn(5); i < n; i++ {
+		if clean {
+			op.A = append(op.A, Val{K: "str", S: Str(g.cleanPiece(win))})
+		} else {
+			op.A = append(op.A, Val{K: "str", S: Str(g.payload())})
+		}
+	}
+	switch g.r.Intn(4) {
+	case 0:
+		op.F = ""
+	case 1:
+		op.F = ", "
+	case 2:
+		op.F = Str(mStart + "d" + mEnd)
+	default:
+		op.F = Str("a" + mStart + "b" + mEnd + "c")
+	}
+	return op
+}
+
 // domain-edge ops for the first sentence of C11 (sampled, see DESIGN §5.1)
 func (g *gen) c11Edge() Op {
-	switch g.r.Intn(7) {
+	switch g.r.Intn(8) {
+	case 7:
+		return g.c11Helpers()
 	case 0, 1:
 		return g.c11Conserve()
 	case 2:
